@@ -1,6 +1,6 @@
 SPECIFICATION Spec
 CONSTANTS
-  Sizes = {0, 4096, 8192}
+  Sizes = {0, 100, 4096, 8192}
   Max = 4
   ShrinkOnSettings = TRUE
 INVARIANTS DecodesEverything EncoderWithinLimit
